@@ -3,10 +3,12 @@
 W=$1; O=$2
 export GOFLAGS=-mod=mod GOPROXY=off
 cd $W || exit 2
+run_demo() { if [ -f zzdemo/run.sh ]; then sh zzdemo/run.sh; else go test -vet=off -count=1 ./zzdemo/...; fi; }
 git apply --check -R $O/patch.diff 2>/dev/null || { echo "patch not applied in worktree"; git apply $O/patch.diff || exit 2; }
-go test -vet=off -count=1 ./zzdemo/... > $O/confirm_with.txt 2>&1; with=$?
+run_demo > $O/confirm_with.txt 2>&1; with=$?
 git apply -R $O/patch.diff || exit 2
-go test -vet=off -count=1 ./zzdemo/... > $O/confirm_without.txt 2>&1; without=$?
+run_demo > $O/confirm_without.txt 2>&1; without=$?
 git apply $O/patch.diff
+[ -f zzdemo/run.sh ] && sh zzdemo/run.sh >/dev/null 2>&1
 git checkout go.sum 2>/dev/null
 echo "$(basename $W): with-patch exit=$with (want !=0), without-patch exit=$without (want 0)"
